@@ -14,6 +14,13 @@ import (
 	"github.com/postalsys/muti-metroo/internal/protocol"
 )
 
+// maxOutputRead is the largest piece of process output sent in one message.
+// The message (1-byte type prefix + data) is encrypted as a unit and the
+// ciphertext must fit in a single frame: WriteStreamData splits anything
+// larger across frames, and the receiver decrypts frame by frame, so it
+// cannot open either fragment and tears the session down.
+const maxOutputRead = protocol.MaxPayloadSize - crypto.EncryptionOverhead - 1
+
 // DataWriter is the interface for sending data to a stream.
 type DataWriter interface {
 	WriteStreamData(peerID identity.AgentID, streamID uint64, data []byte, flags uint8) error
@@ -387,7 +394,7 @@ func (h *Handler) writeEncrypted(ss *ShellStream, data []byte, flags uint8) erro
 // pumpOutput reads from a reader and sends encoded messages to the client.
 // The encoder function determines the message type (stdout or stderr).
 func (h *Handler) pumpOutput(ss *ShellStream, getReader func() io.Reader, encode func([]byte) []byte) {
-	buf := make([]byte, 16*1024) // 16KB buffer
+	buf := make([]byte, maxOutputRead)
 	for {
 		ss.mu.Lock()
 		session := ss.Session
@@ -436,7 +443,7 @@ func (h *Handler) pumpStderr(ss *ShellStream) {
 
 // pumpPTYOutput reads PTY output and sends it to the client.
 func (h *Handler) pumpPTYOutput(ss *ShellStream) {
-	buf := make([]byte, 16*1024) // 16KB buffer
+	buf := make([]byte, maxOutputRead)
 	for {
 		ss.mu.Lock()
 		ptySession := ss.PTYSession
